@@ -20,9 +20,14 @@ class Illegal(Exception):
     pass
 
 
-def step(st, op, clock, arg=None):
+def step(st, op, clock, arg=None, reads=None):
     """-> (new_state, result).  clock() yields the next reading.
-    Raises Illegal when the call is illegal in this state."""
+    Raises Illegal when the call is illegal in this state.
+    reads: how many readings the implementation took during this call, if
+    known.  Only restart uses it: the statement fixes the restart instant as
+    a clock reading taken during the call, not how many are taken, so the
+    reference takes as many as the implementation (at least one) and the
+    last one is the restart instant."""
     state, t0, t1, dur, splits = st
     if op in ('start', '__enter__'):
         if state == STARTED:
@@ -42,8 +47,11 @@ def step(st, op, clock, arg=None):
             raise Illegal()
         return (STARTED, t0, t1, dur, splits), 'self'
     if op == 'restart':
-        if state == STARTED:
-            clock()                       # the stop reading
+        n = 2 if state == STARTED else 1  # stop reading + start reading
+        if reads is not None:
+            n = max(1, reads)
+        for _ in range(n - 1):
+            clock()
         return (STARTED, clock(), None, dur, ()), 'self'
     if op == 'elapsed':
         if state not in (STARTED, STOPPED):
